@@ -190,7 +190,8 @@ func judge(c Case, w *vkit.W) {
 				if want := va.Compare(vb); got != want {
 					w.Fail(c, "helper-compare-differs", fmt.Sprintf("%s(%q, %q) = %d, Ver.Compare of the parsed values = %d", f.name, ta, tb, got, want))
 				}
-				if want := va.Latest(vb); lat != want {
+				// between two versions of equal precedence either argument is "one of its two arguments and never the lower one"
+				if want := va.Latest(vb); lat != want && !(va.Compare(vb) == 0 && (lat == va || lat == vb)) {
 					w.Fail(c, "helper-latest-differs", fmt.Sprintf("%s(%q, %q) = %+v, Ver.Latest of the parsed values = %+v", f.name, ta, tb, lat, want))
 				}
 				continue
